@@ -7,7 +7,7 @@ from pyerr import exc_code
 import props.c06_impl as I
 
 PROP = 'C06'
-COQ_TARGETS = ['theories/NetFacts.vo', 'theories/NetTerm.vo', 'theories/NetTerm2.vo', 'theories/NetReply.vo', 'theories/NetOnce.vo', 'theories/NetRoute.vo', 'theories/NetArrive.vo', 'theories/NetLocal.vo', 'theories/NetBcast.vo', 'theories/NetTree.vo', 'theories/NetFlood.vo', 'theories/NetRound.vo', 'theories/NetCert.vo', 'theories/NetLbc.vo', 'theories/NetAnn.vo', 'theories/NetPark.vo', 'theories/NetNumFacts.vo']
+COQ_TARGETS = ['theories/NetFacts.vo', 'theories/NetTerm.vo', 'theories/NetTerm2.vo', 'theories/NetReply.vo', 'theories/NetOnce.vo', 'theories/NetRoute.vo', 'theories/NetArrive.vo', 'theories/NetLocal.vo', 'theories/NetBcast.vo', 'theories/NetTree.vo', 'theories/NetFlood.vo', 'theories/NetRound.vo', 'theories/NetCert.vo', 'theories/NetLbc.vo', 'theories/NetAnn.vo', 'theories/NetPark.vo', 'theories/NetNumFacts.vo', 'theories/NetNumInv.vo']
 COQ_IMPORTS = 'From Bac Require Import Base Net NetCert NetNum.'
 RULE = ('cases: (a) single-node scripts - a random node (station told nothing / its address / network+address, or router of 2..4 '
         'ports with or without an application) receives 1..6 events (cache learning, application sends of every address kind, '
